@@ -265,3 +265,28 @@ def replay_nested_same_template():
             if got != want:
                 return (f"Template:{name} = '({{{{{{{key}}}}}}})': expand({doc!r})", True, f"result {got!r}, expected {want!r}: an acyclic nesting of the same template through its argument is reported as a loop")
     return ("nested same-template documents", False, "")
+
+
+# ---------------------------------------------------------------- trimming applies to the EXPANDED branch
+def pad_expander(x):
+    """an expander whose results carry blanks the raw text does not have (a template whose expansion is padded)"""
+    return " " + x + " "
+
+
+def call_padded(name, args):
+    return P.PARSER_FUNCTIONS[name](ctx, name, list(args), pad_expander)
+
+
+def r_if_padded(args):
+    a = (args + ["", "", ""])[:3]
+    return a[1].strip() if a[0].strip() else a[2].strip()
+
+
+def replay_fn_padded(name, args, want):
+    """through expand(): every argument is wrapped in a call of a template whose expansion is padded with blanks"""
+    w = Wtp(quiet=True, quiet_output=True)
+    w.add_page("Template:pad", 10, " {{{1}}} ")
+    w.start_page("T")
+    doc = "{{" + name + ":" + "|".join("{{pad|1=" + a + "}}" for a in args) + "}}"
+    got = w.expand(doc)
+    return ("Template:pad = ' {{{1}}} ': expand(" + repr(doc) + ")", got != want, f"result {got!r}, MediaWiki trims the expanded branch: {want!r}")
